@@ -1615,6 +1615,8 @@ class Engine:
             return [(st, IntV(x.n))]
         if isinstance(x, NdArrV):
             return [(st, IntV(st.heap[x.oid]['n']))]
+        if isinstance(x, RangeV):
+            return [(st, IntV(x.n))]
         h = self.ctx_hook('len_hook', st, x)
         if h is not None:
             return h
@@ -1709,6 +1711,9 @@ class Engine:
         if len(args) == 1 and isinstance(args[0], IntV):
             n = args[0].t
             return [(st, RangeV(I(0), z3.If(n < 0, I(0), n)))]
+        if len(args) == 2 and isinstance(args[0], IntV) and isinstance(args[1], IntV):
+            a, b = args[0].t, args[1].t
+            return [(st, RangeV(a, z3.If(b - a < 0, I(0), b - a)))]
         raise Unsupported('range%r' % (args,))
 
     def bi_tuple(self, args, kwargs, st, node):
